@@ -225,6 +225,9 @@ pub fn check_case(c: &Case, st: &mut Stats, shard: usize) -> Check {
     let start_speed: Option<u128> = match c.lead >> 6 {
         1 => Some(10),
         2 => Some(5_000),
+        // ... and a speed far above anything the proof-of-work budget of a check can demonstrate: the recorded
+        // speed must survive sealing unchanged (it is a maximum, so it can never come down)
+        3 if c.age % 2 == 0 => Some(1_000_000_007 + (c.amount as u128 % 7) * 10_000_000_000),
         _ => None,
     };
     if let (Some(sp), Some(s)) = (start_speed, w.last_sealed.clone()) {
@@ -235,7 +238,7 @@ pub fn check_case(c: &Case, st: &mut Stats, shard: usize) -> Check {
         w.headers.insert(hd.height.0, hd);
         w.cur = r.next_unsealed();
         w.last_sealed = Some(r);
-        st.class("low-starting-dosc-speed");
+        st.class(if sp > 1_000_000 { "high-starting-dosc-speed" } else { "low-starting-dosc-speed" });
     }
     // funding: three small coins to mint against + fee coins, created at height 1
     let mut fund = Transaction::new(TxKind::Normal);
